@@ -52,6 +52,7 @@ theorem next_eq (s : EfficiencyRatio F) (x : F) (h : WF s) :
   obtain ⟨hp, hs, hsz, hi, hc, hfl⟩ := h
   have hm : isizeMax < usizeMax := by decide
   unfold next first volatility step
+  try simp only [gen_helper]
   simp only [volStep_def]
   rs_exec_prune
   all_goals (first | rfl | contradiction)
@@ -95,11 +96,13 @@ theorem next_none_of_gap (s : EfficiencyRatio F) (x : F)
     (h1 : s.count < s.index) (h2 : s.index + 1 < s.period) : s.next x = none := by
   have hm : isizeMax < usizeMax := by decide
   unfold next
+  try simp only [gen_helper]
   rs_exec_prune
   all_goals simp (disch := omega) only [slice_none, Option.bind_none]
 
 theorem nextBar_eq (s : EfficiencyRatio F) (b : Bar F) : s.nextBar b = s.next b.close := by
   unfold nextBar
+  try simp only [gen_helper]
   cases h : s.next b.close <;> simp
 
 end TaRs.Gen.EfficiencyRatio
